@@ -133,3 +133,41 @@ class EntropyTaps:
         self._saved.clear()
         if random.getstate() != self._state:
             self.events.append("state of the global random generator changed")
+
+
+class Perturb:
+    """Force every foreign entropy / clock source to a fixed, k-dependent value.  If a draw's result
+    changes between two perturbations the result depends on that source (not on the supplied
+    generator alone); if it does not, touching the source was harmless."""
+
+    def __init__(self, k: int) -> None:
+        self.k = k
+        self._saved: list = []
+
+    def _set(self, mod, name, value) -> None:
+        self._saved.append((mod, name, getattr(mod, name)))
+        setattr(mod, name, value)
+
+    def __enter__(self):
+        k = self.k
+        self._state = random.getstate()
+        random.seed(1000 + k)
+        orig_seed = random.Random.seed
+
+        def seed(self_, a=None, version=2):
+            return orig_seed(self_, 7000 + k if a is None else a, version)
+
+        self._set(random.Random, "seed", seed)
+        self._set(os, "urandom", lambda n: bytes([k]) * n)
+        self._set(random, "_urandom", lambda n: bytes([k]) * n)
+        for name in ("time", "monotonic", "perf_counter"):
+            self._set(time, name, lambda k=k: 1000.0 * k)
+        for name in ("time_ns", "monotonic_ns", "perf_counter_ns"):
+            self._set(time, name, lambda k=k: 1000 * k)
+        return self
+
+    def __exit__(self, *exc) -> None:
+        for mod, name, orig in reversed(self._saved):
+            setattr(mod, name, orig)
+        self._saved.clear()
+        random.setstate(self._state)
